@@ -11,17 +11,18 @@
 mod handler;
 mod mutate;
 mod seq;
+mod svc;
 mod util;
 
 use std::process::exit;
 
 fn main() {
     let args: Vec<String> = std::env::args().collect();
-    if args.len() < 3 {
+    if args.len() < 3 && !(args.len() == 2 && args[1] == "geometry") {
         eprintln!("usage: vh replay|drive <component> ...");
         exit(2);
     }
-    let comp = args[2].as_str();
+    let comp = args.get(2).map(|s| s.as_str()).unwrap_or("");
     let r = match args[1].as_str() {
         "replay" => {
             let behaviours = util::read_behaviours(&args[3]);
@@ -31,6 +32,7 @@ fn main() {
                 "kb" => seq::kb::replay(&behaviours, &mut out),
                 "query" => seq::query::replay(&behaviours, &mut out),
                 "handler" => handler::run_behaviours(&behaviours, &mut out),
+                "svc" => svc::run_behaviours(&behaviours, &mut out),
                 _ => Err(format!("unknown component {comp}")),
             }
         }
@@ -44,6 +46,10 @@ fn main() {
                 "query" => seq::query::drive(seed, n, &mut out),
                 _ => Err(format!("unknown component {comp}")),
             }
+        }
+        "geometry" => {
+            println!("{}", svc::geometry());
+            Ok(())
         }
         _ => Err("unknown command".into()),
     };
